@@ -75,7 +75,8 @@ def worker(args):
 
 def functions_for(prop, REG):
     """functions whose contract serves the property, plus the opaque helpers they depend on"""
-    fns = [q for q, c in REG.items() if prop in getattr(c, 'props', ()) and not getattr(c, 'assumed', False)]
+    fns = [q for q, c in REG.items() if prop in getattr(c, 'props', ()) and not getattr(c, 'assumed', False)
+           and not getattr(c, 'no_body', False)]
     return sorted(fns)
 
 
